@@ -53,6 +53,9 @@ def sched_catalogue(prop, tier, drv=0, precs_extra=True):
     j.append(sjob(prop, 'two6', 2, b2 if not q else 1, drv=drv)); j.append(sjob(prop, 'two6', 3, 1, drv=drv)); j.append(sjob(prop, 'two8', 3, 1, drv=drv))
     # K9 zero pivot in the middle (explicit zeros: structure present)
     j.append(sjob(prop, 'chain4', 2, b2, drv=drv, vk=4)); j.append(sjob(prop, 'tree7', 2, 1, drv=drv, vk=4)); j.append(sjob(prop, 'dense4', 2, 1, drv=drv, vk=4, ms=1))
+    j.append(sjob(prop, 'relax6', 2, 1, drv=drv, vk=4, relax=3)); j.append(sjob(prop, 'tree7', 2, 1, drv=drv, vk=4, relax=3)); j.append(sjob(prop, 'two6', 2, 1, drv=drv, vk=4, relax=2))
+    # K12 user-supplied workspace (aligned and misaligned sizes)
+    j.append(sjob(prop, 'fork3', 2, b2, drv=drv, lwork=100000)); j.append(sjob(prop, 'tree7', 3, 1, drv=drv, lwork=200004)); j.append(sjob(prop, 'chain4', 2, 1, drv=drv, lwork=100004))
     # K10 more threads than columns
     j.append(sjob(prop, 'dense1', 3, 2, drv=drv)); j.append(sjob(prop, 'dense2', 3, 1 if q else 2, drv=drv)); j.append(sjob(prop, 'chain3', 4, 1, drv=drv))
     # dynamic supernode storage
